@@ -29,6 +29,7 @@ def check(repo: Repo, rep, tier):
     fmt_taint_fragment(repo, rep)
     type_qualname(repo, rep)
     repr_restore(repo, rep)
+    repr_float(repo, rep)
     from .C03 import io_encoding
     from .C16 import codegen_pure
 
@@ -184,6 +185,34 @@ def repr_parse(repo: Repo, rep):
         rep.ok("R-REPR-PARSE", f, handlers[0].ast, "SyntaxError => HasRepr(type(obj), text)")
     else:
         rep.violation("R-REPR-PARSE", f, f.node, "an unparsable repr is not converted into HasRepr(type(obj), text)", construct="handler")
+
+
+def repr_float(repo: Repo, rep):
+    rep.rule(
+        "R-REPR-FLOAT",
+        "repr() of a builtin number is an expression that evaluates to it - except for the infinite floats, whose repr (`inf`, `-inf`) is a *name*: it "
+        "passes the ast.parse check of the generated code and is a NameError when the snapshot is read back.  The dispatch table of code_repr therefore "
+        "has a handler for `float` that tests for the infinite values and renders them as a call (`float(\"inf\")`)",
+    )
+    m = repo.module("_code_repr.py")
+    hs = []
+    for f in m.funcs.values():
+        if not any("customize_repr" in d or "register" in d for d in f.decorators):
+            continue
+        a = f.node.args.args
+        if a and a[0].annotation is not None and norm(a[0].annotation) == "float":
+            hs.append(f)
+    if not hs:
+        rep.violation("R-REPR-FLOAT", m.funcs["code_repr"], m.funcs["code_repr"].node, "code_repr has no handler for float: `assert float(\"inf\") == snapshot()` + create writes `snapshot(inf)`, a NameError in the next run", construct="no-float-handler")
+        return
+    f = hs[0]
+    txt = norm(f.node)
+    tests_inf = any(isinstance(x, ast.Constant) and x.value in ("inf", "-inf") for x in body_nodes(f.node)) or "isinf" in txt or "isfinite" in txt
+    calls = any(isinstance(x, (ast.JoinedStr, ast.Constant)) and "float(" in (norm(x) if isinstance(x, ast.JoinedStr) else str(x.value)) for x in body_nodes(f.node))
+    if tests_inf and calls:
+        rep.ok("R-REPR-FLOAT", f, f.node, "infinite floats are rendered as float(\"inf\") / float(\"-inf\")")
+    else:
+        rep.violation("R-REPR-FLOAT", f, f.node, "the float handler of code_repr does not single out the infinite values (or does not render them as a call): their repr is a bare name, the created snapshot raises NameError when it is read back", construct="float-handler")
 
 
 def import_step(repo: Repo, rep):
